@@ -16,10 +16,12 @@ const POOL: &[&str] = &[
     "pt-BR", "sr-Latn", "sr-Cyrl", "ca-ES-valencia", "es-419", "ja", "ko", "en-AU", "de-AT", "it", "it-CH", "nl", "nl-BE",
     // same language, different direction depending on the script
     "pa", "pa-Arab", "az", "az-Arab", "ar-Latn", "sd", "sd-Deva", "uz", "uz-Arab", "ug", "ku", "ku-Arab", "he-Latn", "ks", "ps",
+    // same language and no explicit script: the region implies the script (CLDR likely subtags)
+    "pa-PK", "az-IR", "uz-AF", "sd-IN", "ms", "ms-Arab",
 ];
 /// locales whose text runs right to left (CLDR): explicit Arab / Hebr script, or a language whose
 /// likely script is one of them
-const RTL: &[&str] = &["ar", "ar-EG", "he", "fa", "ur", "pa-Arab", "az-Arab", "sd", "uz-Arab", "ug", "ku-Arab", "ks", "ps"];
+const RTL: &[&str] = &["ar", "ar-EG", "he", "fa", "ur", "pa-Arab", "az-Arab", "sd", "uz-Arab", "ug", "ku-Arab", "ks", "ps", "pa-PK", "az-IR", "uz-AF", "ms-Arab"];
 
 struct Case {
     default: String,
